@@ -8,13 +8,14 @@ from pathlib import Path
 
 pid = sys.argv[1]
 n = int(sys.argv[2]) if len(sys.argv) > 2 else 3
+rnd = sys.argv[3] if len(sys.argv) > 3 else "r3"
 props = {json.loads(l)["id"]: json.loads(l) for l in open("/verif/properties.jsonl")}
 p = props[pid]
-wt = Path(f"/work/seed/{pid}/repo")
+wt = Path(f"/work/seed/{pid}/repo-{rnd}")
 out = Path(f"/work/seed/{pid}/out")
 out.mkdir(parents=True, exist_ok=True)
 if not wt.exists():
     subprocess.check_call(["git", "-C", "/repo", "worktree", "add", "-q", "--detach", str(wt), "HEAD"])
 t = open("/work/SEED_PROMPT.md").read()
 print(t.format(WT=wt, OUT=out, PID=pid, TITLE=p["title"], STATEMENT=p["statement"], QUANT=p["quantifier"]["text"],
-               FILES=", ".join(p["anchors"]["files"]), N=n))
+               FILES=", ".join(p["anchors"]["files"]), N=n, ROUND=rnd))
